@@ -35,7 +35,8 @@ Model(e) ==
       [] OTHER           -> tasks
 
 Touched(e, i) == e.k \in {"advance", "update"} /\ e.id = i
-KeepsFin(e, i) == ~(e.k = "reset" /\ e.id = i) /\ ~(e.k = "update" /\ e.id = i /\ e.total.has)
+\* "... until the total CHANGES": an update that names the total the task already has changes nothing
+KeepsFin(e, i) == ~(e.k = "reset" /\ e.id = i) /\ ~(e.k = "update" /\ e.id = i /\ e.total.has /\ tasks[i] # Absent /\ e.total.v # tasks[i].tot)
                   /\ ~(e.k \in {"remove", "add"} /\ e.id = i)
 
 JudgeTask(e, i, t, o) ==
